@@ -34,7 +34,7 @@ ASSUMPTIONS = [
 SERIES_KINDS = ["daily30", "hourly10d", "billing14"]
 ZONES = ["UTC", "America/Chicago"]
 OTHER = {"UTC": "Asia/Kolkata", "America/Chicago": "UTC"}
-MAX_DAYS = [365, None, 1, 5, 10]
+MAX_DAYS = [365, None, 1, 5, 10, 0.5, 0]   # half a day and zero are windows too (not "no limit")
 
 
 def make_index(kind, zone):
